@@ -1,5 +1,6 @@
-import FalconModel.Json
-/-! line protocol:  `dumps <doc>` -> hex of the UTF-8 bytes;  `loads <hex>` -> `some <doc>` | `none`
+import FalconModel.JsonHandler
+/-! line protocol:  `dumps <doc>` -> hex of the UTF-8 bytes;  `loads <hex>` -> `some <doc>` | `none`;
+    `des <hex>` (JSONHandler._deserialize) -> `ok <doc>` | `nf` (MediaNotFoundError) | `mal` (MediaMalformedError) | `oth`
     doc encoding (prefix, space separated): n | t | f | i<decimal> | s<hex of utf-8 or -> | a<count> doc* | o<count> (k<hex or -> doc)* -/
 open Js
 
@@ -74,6 +75,14 @@ def step (line : String) : String :=
   | ["loads", h] =>
     match unhex h with
     | some b => (match loadsBytes b with | some d => "some " ++ encDoc d | none => "none")
+    | none => "bad-hex"
+  | ["des", h] =>
+    match unhex h with
+    | some b => (match handlerDes b with
+      | .ok d => "ok " ++ encDoc d
+      | .err .notFound => "nf"
+      | .err .malformed => "mal"
+      | .err (.other _) => "oth")
     | none => "bad-hex"
   | _ => "bad-op"
 
